@@ -93,6 +93,8 @@ Proof.
   { cbn [cr_world]. apply sent_other. intros i t b E. discriminate. }
   destruct (cs_refused s).
   { cbn [cr_world]. exists [ERefused (w_now w)]. split; [reflexivity|]. intros i t b [E|[]]. discriminate. }
+  destruct (cs_silent s).
+  { cbn [cr_world]. exists [ERefused (w_now w)]. split; [reflexivity|]. intros i t b [E|[]]. discriminate. }
   cbv zeta. cbn [w_conns w_scripts w_cur w_now w_log].
   set (id := N.of_nat (length (w_conns w))).
   match goal with |- context [seq_next _ id PStart d ?W] => set (w1 := W) end.
